@@ -404,10 +404,14 @@ def run(run):
                         if (Pn is None) != (not in_lang(cg, st.value, ss)):
                             prop_fail.append({"clause": "parser accepts exactly the language (premise C10)",
                                               "witness": {"grammar": gname, "constraint": phi, "input": ss, "nonterminal": st.value}})
-                Pl = g_option(P, g_tree)
-                El = g_obs(E) if E else "(Raise NotImpl)"
-                cases_a.append(f"({Pl}, {El}, {lit(o_check)}, {lit(o_parse)}, {lit(o_skip)}, "
-                               f"{lit(o_ctree) if o_ctree else '(Raise NotImpl)'}, {g_option(Pn, g_tree)}, {lit(o_nt)})")
+                def topt(t):
+                    return "(@None tree)" if t is None else f"(Some {g_tree(t)})"
+
+                def tlit(o, ty):          # explicitly typed: a shard may hold only None / only Raise
+                    return f"(@Ok {ty} {o[1]})" if o[0] == "ok" else f"(@Raise {ty} {o[1]})"
+                El = tlit(E, "tv") if E else "(@Raise tv NotImpl)"
+                cases_a.append(f"({topt(P)}, {El}, {tlit(o_check, 'bool')}, {tlit(o_parse, 'tree')}, {tlit(o_skip, 'tree')}, "
+                               f"{tlit(o_ctree, 'bool') if o_ctree else '(@Raise bool NotImpl)'}, {topt(Pn)}, {tlit(o_nt, 'tree')})")
                 meta_a.append({"grammar": gname, "constraint": phi, "input": s, "parser": None if P is None else str(P),
                                "evaluate": E, "check": o_check[:2], "parse": (o_parse[0], o_parse[1] if o_parse[0] == "raise" else "tree"),
                                "kind": kind})
@@ -430,7 +434,7 @@ def run(run):
                         prop_fail.append({"clause": "parse raises SyntaxError outside the grammar, SemanticError on violation",
                                           "witness": w, "impl": repr(o_parse[:2])[:200], "expected": exp_parse})
                 if o_parse[0] == "ok":
-                    cases_c.append(f"({G}, {o_parse[1]}, {g_str(s)}, None)")
+                    cases_c.append(f"({G}, {o_parse[1]}, {g_str(s)}, @None tree)")
                     meta_c.append(dict(w, what="tree returned by parse"))
                 # tree vs string (fuzzed tree has ("", []) epsilon children)
                 if ft is not None and P is not None:
@@ -500,7 +504,7 @@ def run(run):
                     if what == "repair" and kind == "valid" and not (r[0] == "ok" and r[1].value_or(None) is inp_tree):
                         prop_fail.append({"clause": "repair returns an already valid input unchanged", "witness": w, "impl": obs[:200]})
                     if rt is not None:
-                        cases_c.append(f"({G}, {g_tree(rt)}, {g_str(str(rt))}, None)")
+                        cases_c.append(f"({G}, {g_tree(rt)}, {g_str(str(rt))}, @None tree)")
                         meta_c.append(dict(w, what=f"tree returned by {what}"))
                         e2 = eval_obs(solver, rt)
                         if e2 != ("ok", "TT"):
